@@ -71,7 +71,7 @@ def handle (j : Json) : Json :=
         (agree, v2, "err:" ++ e)
       else
         let agree := match model with | .panic _ => jhas impl "panic" | .diverge => jhas impl "timeout" | _ => false
-        (agree, if need ≥ 1 && limit ≥ 0 then ["C01:crash:" ++ sname] else [], "crash")
+        (agree, if need ≥ 1 then ["C01:crash:" ++ sname, "C02:crash:" ++ sname] else [], "crash")
     Json.mkObj [("id", id), ("agree", agree), ("model", outcomeToJson model),
                 ("spec", Json.arr (viol.map Json.str).toArray), ("class", cls), ("feasible", feas)]
 
